@@ -83,6 +83,11 @@ func (f *file) register(c *Counter) {
 		}
 		if f.counters.CompareAndSwap(head, c) {
 			debugPrintf("registered %s %p\n", c.Name(), f.counters.Load())
+			// A concurrent Add that found c.next already set may have
+			// looked up c's pointer before c was on the list, so that
+			// an invalidateCounters pass has missed c: redo it for c.
+			c.invalidate()
+			c.refresh()
 			return
 		}
 		debugPrintf("register %s cas2 failed %p %p\n", c.Name(), f.counters.Load(), head)
